@@ -518,3 +518,43 @@ class ResultType(Contract):
 
 
 CONTRACTS = CONTRACTS + [ResultType()]
+
+
+class CommonType(Contract):
+    """numpoly.common_type(*arrays): numpy.common_type of one coefficient column per operand, in order - a polynomial array takes
+    part like a plain array of its coefficient dtype.  (numpy.common_type(poly, ...) dispatches here: true_divide rests on it.)"""
+    name, func, relpath, properties = "numpoly.common_type", "common_type", "numpoly/array_function/common_type.py", ("C12", "C11")
+    assumptions = ("arity 2 with polynomial operands enumerated; numpy.common_type is the uninterpreted function common_type2 (numpy axiom)",)
+
+    def cases(self):
+        def make_env(ex):
+            ctx = ex.ctx
+            for a in shape_axioms(ctx) + mono_axioms(ctx):
+                ctx.assume(a)
+            ps = []
+            for k in range(2):
+                P = Poly(ctx, f"p{k}", region=Region("caller", f"p{k}"))
+                ctx.assume(P.wf(ctx))
+                ps.append(P)
+            ex.inputs = ps
+            return {"arrays": tuple(ps)}
+
+        def check(out):
+            from engine.polymodel import DTypeV
+            ex = out.ex
+            ex.oblige(f"raises.nothing[{out.exc}]" if out.kind == "raise" else "raises.nothing", z3.BoolVal(out.kind == "return"), "post")
+            if out.kind != "return":
+                return
+            r = out.value
+            ok = isinstance(r, DTypeV)
+            ex.oblige("post.a_dtype", z3.BoolVal(ok), "post")
+            if ok:
+                ct = z3.Function("common_type2", DT, DT, DT)
+                ex.oblige("post.numpy_common_type_of_the_coefficient_dtypes_in_order", r.term == ct(ex.inputs[0].dtype, ex.inputs[1].dtype), "post")
+        yield Case("poly+poly", make_env, check)
+
+    def apply(self, ex, args, kw, node):
+        raise U("common_type as a callee", node)
+
+
+CONTRACTS = CONTRACTS + [CommonType()]
